@@ -400,3 +400,50 @@ deferred_align = dict(
     structs=[], prelude=DEF_PRE, enforce='DF_align_pointer', replace=[], funcs=[deferred_funcs[0]], harness='  uintptr_t p; size_t a; DF_align_pointer(p, a);',
     dropped=['pointer as uintptr_t'], trusted=[], min_obligations=3)
 UNITS += [deferred_align, deferred]
+
+# ------------------------------------------------------------------------------------------ DirectFormatCodec<T>: format at the call site, ship the text
+DIH = 'quill/DirectFormatCodec.h'
+DIR_PRE = BASE + STR_PRE.replace('#define BUFSZ 64', '#define BUFSZ 64') + r'''
+typedef struct Tobj { int d; } Tobj;
+uint32_t g_text_len;                 /* length of fmt::format("{}", obj): the same on both passes (the object does not change between them) */
+size_t g_size_calls, g_format_calls; unsigned char* g_fmt_dst; uint32_t g_fmt_n;
+size_t FORMATTED_SIZE(Tobj const* o) __CPROVER_assigns(g_size_calls) __CPROVER_ensures(RET == g_text_len && g_size_calls == OLD(g_size_calls) + 1);
+/* fmt::format_to_n(dst, n, "{}", obj): writes at most n characters of the text at dst */
+static inline void FORMAT_TO_N(unsigned char* dst, uint32_t n, Tobj const* o) { g_format_calls++; g_fmt_dst = dst; g_fmt_n = n; uint32_t m = n < g_text_len ? n : g_text_len; for (uint32_t i = 0; i < m; i++) dst[i] = (unsigned char)('a' + (i & 7)); }
+typedef Str Arg;
+'''
+DIR_RULES = [(r'quill::detail::', ''), (r'\barg\b', '(*arg_p)'), (r'\bbuffer\b', '(*buffer_p)'), (r'\bconditional_arg_size_cache_index\b', '(*idx_p)'), (r'\bconditional_arg_size_cache\b(?!_)', '(*cache_p)'),
+             (r'fmtquill::formatted_size\("\{\}",\s*\(\*arg_p\)\)', 'FORMATTED_SIZE(arg_p)'), (r'fmtquill::format_to_n\(reinterpret_cast<char\*>\(\(\*buffer_p\)\),\s*len,\s*"\{\}",\s*\(\*arg_p\)\)', 'FORMAT_TO_N((*buffer_p), len, arg_p)'),
+             (r'\(\*cache_p\)\s*\[([^\]]*)\]', r'(*IV_at(cache_p, \1))'), (r'\bstd::memcpy\(', 'MEMCPY0('), (r'quill::Codec<std::string>::decode_arg\(\(\*buffer_p\)\)', 'CD_decode_arg(buffer_p)')]
+direct_funcs = [f for f in funcs('using Arg = std::string;', 'Str', 'SV') if f['cfun'] == 'CD_decode_arg'] + [
+    dict(src=dict(header=DIH, cls='DirectFormatCodec', name='compute_encoded_size'), cfun='DI_compute_encoded_size', sig='size_t DI_compute_encoded_size(IV* cache_p, Tobj const* arg_p)', member_fields=[], methods={'push_back': 'IV_push_back'}, pre_rules=DIR_RULES),
+    dict(src=dict(header=DIH, cls='DirectFormatCodec', name='encode'), cfun='DI_encode', sig='void DI_encode(unsigned char** buffer_p, IV* cache_p, uint32_t* idx_p, Tobj const* arg_p)', member_fields=[], pre_rules=DIR_RULES),
+    dict(src=dict(header=DIH, cls='DirectFormatCodec', name='decode_arg'), cfun='DI_decode_arg', sig='SV DI_decode_arg(unsigned char** buffer_p)', member_fields=[], pre_rules=DIR_RULES),
+    dict(cfun='lem_roundtrip', text=r'''
+void lem_roundtrip(void)
+__CPROVER_assigns(g_size_calls, g_format_calls, g_fmt_dst, g_fmt_n)
+__CPROVER_ensures(1 == 1)
+{
+  static unsigned char buf[BUFSZ]; Tobj obj;
+  __CPROVER_assume(g_text_len <= MAXLEN);
+  IV cache; cache.n = 0; g_size_calls = 0; g_format_calls = 0;
+  size_t const size = DI_compute_encoded_size(&cache, &obj);
+  __CPROVER_assert(size == 4 + (size_t)g_text_len, "C04: reserved size is the length field plus the text formatted at the call site");
+  unsigned char* w = buf; uint32_t idx = 0;
+  DI_encode(&w, &cache, &idx, &obj);
+  __CPROVER_assert((size_t)(w - buf) == size && idx == cache.n, "C04: bytes written by encode == bytes reserved by the size pass; the cached length is consumed");
+  __CPROVER_assert(g_format_calls == 1 && g_fmt_dst == buf + 4 && g_fmt_n == g_text_len, "C04: the text is formatted once, right behind the length field, with exactly the reserved length");
+  unsigned char* r = buf;
+  SV d = DI_decode_arg(&r);
+  __CPROVER_assert(r == w, "C04: bytes consumed by decode == bytes written by encode");
+  __CPROVER_assert(d.n == g_text_len && (void const*)d.d == (void const*)(buf + 4), "C04: the decoded argument is the text formatted at the call site (a view into the record)");
+}
+''')]
+direct = dict(
+    name='CD.direct', primary='C04', props={'C04'}, kind='L',
+    desc='DirectFormatCodec<T>: the object is formatted at the call site into the record ([length][text]); the backend sees that text - with the real Codec<std::string>::decode_arg body',
+    structs=[], prelude=DIR_PRE, enforce='lem_roundtrip', replace=['FORMATTED_SIZE'], funcs=direct_funcs, harness='  lem_roundtrip();',
+    cbmc=['--unwind', str(L + 3), '--unwinding-assertions'], bounded=dict(bound='formatted text of length <= %d' % L, form='a'),
+    dropped=['the user type and its formatter (text length as a ghost; fmt::formatted_size / format_to_n as shims)'], trusted=['fmt::formatted_size and fmt::format_to_n agree on the text of an unchanged object', 'memcpy (CBMC built-in)'],
+    assumes=['harness assume: text length within the bound'], allow_assume=True, min_obligations=5)
+UNITS += [direct]
